@@ -4,7 +4,7 @@
    stack beneath it.  Stage 1: every construct except Conditional, on programs that contain no
    Delegate instruction (all easy leaves next to hard constructs are literals). *)
 From FR Require Import Base State Utf8 Utf8Facts Chars Ast Analyze Sem ExprLemmas SemSound GoBack
-                       Vm Compile StateRefine VmRefine SemK Scope Det Machine.
+                       Vm Compile StateRefine VmRefine SemK Scope Det Param EasyBlock Machine DelegStep Atomize.
 From Coq Require Import Lia NArith.
 
 Section CC.
@@ -2221,5 +2221,315 @@ Qed.
 
 Theorem seg_all : forall lk e, seg_stmt lk e.
 Proof. intros lk e. apply seg_all_aux. Qed.
+
+
+(* ====================================================================================== *)
+(* Stage 2: ALL Delegate instructions.  The compiled program implements the ATOMIZED tree
+   (Proofs/Atomize.v): every delegated block yields its first result only.                 *)
+(* ====================================================================================== *)
+Section D.
+Hypothesis HfuelS : fuel = S (length (c_text cx)).   (* the fuel the Delegate oracle runs with *)
+
+Definition okinsn2 (i : insn) : bool :=
+  match i with IDelegate es sg eg => forallb easyx es && (eg =? sg + ngroups_list es) | _ => true end.
+Definition okdeleg2 (code : list insn) : Prop := forallb okinsn2 code = true.
+Lemma okdeleg2_app a b : okdeleg2 (a ++ b) <-> okdeleg2 a /\ okdeleg2 b.
+Proof. unfold okdeleg2. rewrite forallb_app, andb_true_iff. tauto. Qed.
+Lemma okdeleg2_cons i c : okdeleg2 (i :: c) <-> okinsn2 i = true /\ okdeleg2 c.
+Proof. unfold okdeleg2. cbn [forallb]. rewrite andb_true_iff. tauto. Qed.
+
+Notation asem e g hc := (sem cx (atomize bs e g hc) fuel g).
+
+Definition seg_stmtD (lk : bool) (e : expr) : Prop := forall g hc pc ns code ns',
+  visit bs e g hc pc ns = inr (code, ns') -> okdeleg2 code -> At pc code ->
+  oke lk g e -> NC <= ns -> 2 * (g + ngroups e) <= NC ->
+  segP lk pc code ns ns' (asem e g hc).
+
+Lemma firstn1_short {A} (l : list A) : length l <= 1 -> firstn 1 l = l.
+Proof. destruct l as [|a [|b l]]; cbn; intros; auto; lia. Qed.
+
+(* a whole easy sub-expression outside a hard context *)
+Lemma asem_easy e g hc st : negb hc && negb (hard bs g e) = true ->
+  asem e g hc st = firstn 1 (sem cx e fuel g st).
+Proof.
+  intros Hs. rewrite (atomize_easy bs e g hc Hs). destruct (det e) eqn:Ed; [|destruct st; reflexivity].
+  destruct st as [ix cp]. destruct (det_sem cx e Ed ix) as [r Hr]. rewrite Hr. destruct r; reflexivity.
+Qed.
+
+(* one Delegate instruction = the first result of the block *)
+Lemma block_step lk es sg eg pc ns v K : at_ pc (IDelegate es sg eg) ->
+  forallb easyx es = true -> eg = sg + ngroups_list es -> 2 * eg <= NC -> NC <= ns ->
+  ns <= length (v_sl v) ->
+  Gen pc (S pc) K (RunV pc v K) (map (R lk v ns ns) (firstn 1 (sem_cat cx fuel sg es (sof v)))).
+Proof.
+  intros Ha He Heg H2 Hns Hsl.
+  pose proof (step_delegate cx P MS pc (v_ix v) (v_sl v) (v_aux v) K es sg eg NC Ha He Heg H2 ltac:(lia)) as Hs.
+  rewrite <- HfuelS in Hs. rewrite sem_concat_eq in Hs. fold (caps (v_sl v)) in Hs.
+  change (v_ix v, caps (v_sl v)) with (sof v) in Hs.
+  destruct (sem_cat cx fuel sg es (sof v)) as [|x rest]; cbn [hd_error firstn map] in *.
+  - apply Gen_none. apply steps_step. exact Hs.
+  - destruct Hs as (sl' & Hst & Hcp & Hl & Hfr).
+    eapply (Gen_one pc (S pc) K v {| v_ix := fst x; v_sl := sl'; v_aux := v_aux v |}).
+    + apply steps_step. exact Hst.
+    + unfold R; cbn [v_ix v_sl v_aux]. split; [auto|]. split; [exact Hcp|]. split; [auto|].
+      split; [exact Hl|]. intros j Hj _. apply Hfr. exact Hj.
+Qed.
+
+Lemma lit_step lk val pc ns v K : at_ pc (ILit val) -> v_ix v <= length t ->
+  Gen pc (S pc) K (RunV pc v K) (map (R lk v ns ns) (lit_res (sof v) val)).
+Proof.
+  intros Ha Hix. unfold lit_res. cbn [fst snd sof].
+  pose proof (step_lit cx P MS pc (v_ix v) (v_sl v) (v_aux v) K _ Ha) as Hs. rewrite Htext in Hs. fold t in Hs.
+  destruct (lit_at t (v_ix v) val); cbn [map].
+  - eapply (Gen_one pc (S pc) K v {| v_ix := v_ix v + length val; v_sl := v_sl v; v_aux := v_aux v |}).
+    + apply steps_step. exact Hs.
+    + unfold R; cbn [v_ix v_sl v_aux fst snd]. repeat split; auto.
+  - apply Gen_none. apply steps_step. exact Hs.
+Qed.
+
+Lemma lit_res_short st val : length (lit_res st val) <= 1.
+Proof. unfold lit_res. destruct (lit_at _ _ _); cbn; lia. Qed.
+
+Lemma seg_delegD lk e g pc ns v K : okdeleg2 (delegate1 e g) -> At pc (delegate1 e g) ->
+  2 * (g + ngroups e) <= NC -> NC <= ns -> ns <= length (v_sl v) -> v_ix v <= length t ->
+  Gen pc (pc + length (delegate1 e g)) K (RunV pc v K) (map (R lk v ns ns) (firstn 1 (sem cx e fuel g (sof v)))).
+Proof.
+  unfold delegate1. destruct (is_literal e) eqn:El; intros Hn Ha Hng Hns Hsl Hix.
+  - apply At_cons in Ha as [Ha _]. cbn [length]. replace (pc + 1) with (S pc) by lia.
+    rewrite sem_is_literal by auto. rewrite firstn1_short by apply lit_res_short. now apply lit_step.
+  - apply At_cons in Ha as [Ha _]. apply okdeleg2_cons in Hn as [Hn _]. cbn [okinsn2] in Hn.
+    apply andb_true_iff in Hn as [Hd Heq]. apply Nat.eqb_eq in Heq.
+    cbn [length]. replace (pc + 1) with (S pc) by lia.
+    pose proof (block_step lk [e] g _ pc ns v K Ha Hd Heq ltac:(lia) Hns Hsl) as Hb.
+    cbn [sem_cat] in Hb.
+    replace (flat_map (fun s => [s]) (sem cx e fuel g (sof v))) with (sem cx e fuel g (sof v)) in Hb; [exact Hb|].
+    generalize (sem cx e fuel g (sof v)). intros l. induction l as [|a l IHl]; [reflexivity|]. cbn [flat_map app]. now rewrite <- IHl.
+Qed.
+
+(* a run of easy siblings handed over as one block *)
+Definition blockf (g : nat) (l : list expr) (st : sst) : list sst :=
+  match l with [] => [st] | _ => firstn 1 (sem_cat cx fuel g l st) end.
+
+Lemma seg_delegatesD lk l g pc ns : okdeleg2 (delegates l g) -> At pc (delegates l g) ->
+  2 * (g + ngroups_list l) <= NC -> NC <= ns ->
+  segP lk pc (delegates l g) ns ns (blockf g l).
+Proof.
+  intros Hn Ha Hng Hns. destruct l as [|x r]; [apply segP_nil|].
+  unfold delegates in *. cbn [blockf]. destruct (forallb is_literal (x :: r)) eqn:El.
+  - apply At_cons in Ha as [Ha _]. split; auto. intros v K Hsl Hok. unfold blockf.
+    rewrite sem_cat_literals; [|exact El|exact (st_ok_ix v Hok)]. rewrite flat_map_push_literal in *.
+    rewrite firstn1_short by apply lit_res_short. cbn [length]. replace (pc + 1) with (S pc) by lia.
+    apply lit_step; auto using st_ok_ix.
+  - apply At_cons in Ha as [Ha _]. apply okdeleg2_cons in Hn as [Hn _]. cbn [okinsn2] in Hn.
+    apply andb_true_iff in Hn as [Hd Heq]. apply Nat.eqb_eq in Heq. split; auto. intros v K Hsl Hok. unfold blockf.
+    cbn [length]. replace (pc + 1) with (S pc) by lia.
+    apply (block_step lk (x :: r) g _ pc ns v K Ha Hd Heq); auto; lia.
+Qed.
+
+Lemma visit_short e g hc pc ns : negb hc && negb (hard bs g e) = true ->
+  visit bs e g hc pc ns = inr (delegate1 e g, ns).
+Proof. intros H. destruct e; cbn [visit]; rewrite H; reflexivity. Qed.
+
+(* shared opening: the whole expression handed over *)
+Ltac startD e :=
+  intros g hc pc ns code ns' Hv Hnd HAt (Hw & Hz & Hac & Hrk) Hns Hng;
+  destruct (negb hc && negb (hard bs g e)) eqn:Edel;
+  [rewrite (visit_short e g hc pc ns Edel) in Hv; inversion Hv; subst code ns'; split; [lia|]; intros v K Hsl Hok;
+   rewrite (asem_easy e g hc (sof v) Edel); apply seg_delegD; auto using st_ok_ix; lia | ].
+
+(* leaves: the tree is not changed and the code has no Delegate (or a deterministic one): the
+   stage-1 lemmas apply *)
+Lemma seg_oldD lk e : seg_stmt lk e ->
+  (forall g hc, negb hc && negb (hard bs g e) = false -> atomize bs e g hc = e) ->
+  (forall g hc pc ns code ns', negb hc && negb (hard bs g e) = false ->
+     visit bs e g hc pc ns = inr (code, ns') -> okdeleg code) ->
+  seg_stmtD lk e.
+Proof.
+  intros Hold Hat Hokd. startD e. rewrite (Hat g hc Edel). apply (Hold g hc pc ns code ns'); auto.
+  - eapply Hokd; eauto.
+  - repeat split; auto.
+Qed.
+
+Ltac leaf_at := intros g hc Hs; cbn [atomize]; rewrite Hs; reflexivity.
+Ltac leaf_ok := intros g hc pc ns code ns' Hs Hv; cbn [visit] in Hv; rewrite Hs in Hv;
+  repeat match type of Hv with context [match ?b with _ => _ end] => destruct b end;
+  inversion Hv; subst; unfold okdeleg, delegate1; cbn; rewrite ?Nat.add_0_r, ?Nat.eqb_refl; reflexivity.
+
+Lemma seg_emptyD lk : seg_stmtD lk Empty.
+Proof. apply seg_oldD; [apply seg_empty|leaf_at|leaf_ok]. Qed.
+Lemma seg_anyD lk nl : seg_stmtD lk (Any nl).
+Proof. apply seg_oldD; [apply seg_any|leaf_at|leaf_ok]. Qed.
+Lemma seg_assertionD lk a : seg_stmtD lk (Assertion a).
+Proof. apply seg_oldD; [apply seg_assertion|leaf_at|leaf_ok]. Qed.
+Lemma seg_literalD lk v c : seg_stmtD lk (Literal v c).
+Proof. apply seg_oldD; [apply seg_literal|leaf_at|leaf_ok]. Qed.
+Lemma seg_keepoutD lk : seg_stmtD lk KeepOut.
+Proof. apply seg_oldD; [apply seg_keepout|leaf_at|leaf_ok]. Qed.
+Lemma seg_contgD lk : seg_stmtD lk ContinueFromPreviousMatchEnd.
+Proof. apply seg_oldD; [apply seg_contg|leaf_at|leaf_ok]. Qed.
+Lemma seg_backrefD lk grp : seg_stmtD lk (Backref grp).
+Proof. apply seg_oldD; [apply seg_backref|leaf_at|leaf_ok]. Qed.
+Lemma seg_becD lk grp : seg_stmtD lk (BackrefExistsCondition grp).
+Proof. apply seg_oldD; [apply seg_bec|leaf_at|leaf_ok]. Qed.
+Lemma seg_classD lk i s c k : seg_stmtD lk (Delegate i s c k).
+Proof. apply seg_oldD; [apply seg_all|leaf_at|leaf_ok]. Qed.
+
+
+Lemma seg_groupD lk c : seg_stmtD lk c -> seg_stmtD lk (Group c).
+Proof.
+  intros IH. startD (Group c). cbn [visit] in Hv. rewrite Edel in Hv. rewrite (atomize_group bs c g hc Edel).
+  apply bindc_inr in Hv as ([cc ns1] & Hc & Hr). inversion Hr; subst code ns'. clear Hr.
+  apply At_cons in HAt as [Ha1 HAt]. apply At_app in HAt as [HAc HA2]. apply At_cons in HA2 as [Ha2 _].
+  apply okdeleg2_cons in Hnd as [_ Hnd]. apply okdeleg2_app in Hnd as [Hndc _].
+  cbn [ngroups] in Hng. cbn [wfe] in Hw. cbn [zok] in Hz. cbn [acheck] in Hac. cbn [rok] in Hrk.
+  replace (pc + 1) with (S pc) in Hc by lia.
+  destruct (IH (S g) hc (S pc) ns cc ns1 Hc Hndc HAc (conj Hw (conj Hz (conj Hac Hrk))) Hns ltac:(lia)) as [Hmono IHc].
+  split; [exact Hmono|]. intros v K Hsl Hok.
+  destruct v as [ix sl aux]. cbn [sem sof v_ix v_sl] in *.
+  set (v1 := {| v_ix := ix; v_sl := upd sl (g * 2) (V ix); v_aux := aux |}).
+  apply Gen_step. unfold RunV at 1; cbn [v_ix v_sl v_aux]. rewrite (step_save cx P MS pc ix sl aux K _ Ha1) by lia.
+  change (Run (S pc) ix (upd sl (g * 2) (V ix)) aux K) with (RunV (S pc) v1 K).
+  apply Gen_weaken with (p := S pc); [lia|].
+  assert (Hok1 : st_ok cs (sof v1)) by (apply st_ok_upd; auto; lia).
+  specialize (IHc v1 K ltac:(unfold v1; cbn [v_sl]; rewrite upd_length; lia) Hok1).
+  replace (sof v1) with (ix, upd (caps sl) (2 * g) (V ix)) in IHc
+    by (unfold sof, v1; cbn [v_ix v_sl]; rewrite caps_upd_lt by lia; f_equal; f_equal; lia).
+  eapply Gen_map; [| |exact IHc]; [cbn [length]; rewrite app_length; cbn [length]; lia|].
+  rewrite map_map'. apply Forall2_same_map. intros a Hin v' K1 (Hi & Hcp & Hax & Hfr).
+  destruct v' as [ix' sl' aux']. cbn [v_ix v_sl v_aux] in *.
+  exists {| v_ix := ix'; v_sl := upd sl' (g * 2 + 1) (V ix'); v_aux := aux' |}. split.
+  - replace (pc + length (ISave (g * 2) :: cc ++ [ISave (g * 2 + 1)])) with (S (S pc + length cc))
+      by (cbn [length]; rewrite app_length; cbn [length]; lia).
+    apply steps_step. apply step_save; auto. destruct Hfr as [Hl _]. unfold v1 in Hl; cbn [v_sl] in Hl.
+    rewrite upd_length in Hl. lia.
+  - unfold R; cbn [v_ix v_sl v_aux fst snd]. rewrite caps_upd_lt by lia. rewrite Hcp, <- Hi.
+    split; [auto|]. split; [f_equal; lia|]. split; [auto|].
+    destruct Hfr as [Hl Hf]. unfold v1 in *; cbn [v_sl] in *. split.
+    + rewrite !upd_length in *. auto.
+    + intros j Hj Ho. rewrite nth_error_upd. destruct (Nat.eqb_spec (g * 2 + 1) j); [lia|].
+      rewrite Hf by auto. rewrite nth_error_upd. destruct (Nat.eqb_spec (g * 2) j); [lia|]. reflexivity.
+Qed.
+
+(* facts about the atomized tree that the stage-1 proofs used about the tree itself *)
+Lemma at_ngroups e g hc : ngroups (atomize bs e g hc) = ngroups e.
+Proof. apply (atomize_keeps bs e g hc). Qed.
+Lemma at_wfe e g hc : wfe e -> wfe (atomize bs e g hc).
+Proof. apply (atomize_keeps bs e g hc). Qed.
+Lemma at_zok e g hc : zok e -> zok (atomize bs e g hc).
+Proof. apply (atomize_keeps bs e g hc). Qed.
+Lemma at_min e g hc : min_size (atomize bs e g hc) = min_size e.
+Proof. apply (atomize_keeps bs e g hc). Qed.
+Lemma at_const e g hc : const_size (atomize bs e g hc) = const_size e.
+Proof. apply (atomize_keeps bs e g hc). Qed.
+
+Lemma sem_cat_atom_list fu hc : forall l g st,
+  sem_cat cx fu g (atom_list bs hc g l) st =
+  (fix go (g : nat) (l : list expr) (st : sst) : list sst :=
+     match l with [] => [st] | x :: r => flat_map (go (g + ngroups x) r) (sem cx (atomize bs x g hc) fu g st) end) g l st.
+Proof.
+  induction l as [|x r IH]; intros g st; [reflexivity|]. cbn [atom_list sem_cat]. rewrite at_ngroups.
+  apply flat_map_ext. intros a. apply IH.
+Qed.
+
+(* the hard middle children of a concatenation *)
+Fixpoint asem_cat (hc : bool) (g : nat) (l : list expr) (st : sst) : list sst :=
+  match l with [] => [st] | x :: r => flat_map (asem_cat hc (g + ngroups x) r) (asem x g hc st) end.
+Lemma asem_cat_eq hc : forall l g st, sem_cat cx fuel g (atom_list bs hc g l) st = asem_cat hc g l st.
+Proof.
+  induction l as [|x r IH]; intros g st; [reflexivity|]. cbn [atom_list sem_cat asem_cat]. rewrite at_ngroups.
+  apply flat_map_ext. intros a. apply IH.
+Qed.
+
+Lemma wfe_atom_list hc : forall l g, wfe_list l -> wfe_list (atom_list bs hc g l).
+Proof. induction l as [|x r IH]; intros g H; [exact I|]. destruct H. split; [now apply at_wfe|now apply IH]. Qed.
+
+Lemma asem_ok e g hc st st' : wfe e -> st_ok cs st -> In st' (asem e g hc st) -> st_ok cs st'.
+Proof. intros Hw. apply sem_ok. now apply at_wfe. Qed.
+
+Lemma seg_listD lk : forall B, Forall (seg_stmtD lk) B -> forall g pc ns code ns',
+  visit_list g pc ns B = inr (code, ns') -> okdeleg2 code -> At pc code ->
+  okl lk g B -> NC <= ns -> 2 * (g + ngroups_list B) <= NC ->
+  segP lk pc code ns ns' (asem_cat true g B).
+Proof.
+  induction 1 as [|x r Hx Hr IH]; intros g pc ns code ns' Hv Hnd HAt Hokl Hns Hng; cbn [visit_list] in Hv.
+  - inversion Hv; subst. apply segP_nil.
+  - apply bindc_inr in Hv as ([c1 ns1] & H1 & Hv). apply bindc_inr in Hv as ([c2 ns2] & H2 & Hv).
+    inversion Hv; subst code ns'. clear Hv.
+    apply okdeleg2_app in Hnd as [Hn1 Hn2]. apply At_app in HAt as [HA1 HA2].
+    apply okl_cons in Hokl as [Ho1 Ho2]. rewrite ngl_cons in Hng.
+    pose proof (Hx g true pc ns c1 ns1 H1 Hn1 HA1 Ho1 Hns ltac:(lia)) as S1.
+    assert (M1 : ns <= ns1) by apply S1.
+    pose proof (IH _ _ _ _ _ H2 Hn2 HA2 Ho2 ltac:(lia) ltac:(lia)) as S2.
+    cbn [asem_cat]. apply segP_app with (ns1 := ns1); auto.
+    intros st st' Hs Hin. eapply asem_ok; eauto. apply Ho1.
+Qed.
+
+
+Lemma in_firstn {A} (x : A) n l : In x (firstn n l) -> In x l.
+Proof. revert l. induction n as [|n IH]; intros [|a l] H; cbn in *; auto; try tauto. destruct H as [H|H]; auto. Qed.
+
+Lemma sem_cat_wrapA fu g A st : sem_cat cx fu g (wrapA A) st =
+  match A with [] => [st] | _ => firstn 1 (sem_cat cx fu g A st) end.
+Proof.
+  destruct A as [|x r]; [reflexivity|]. unfold wrapA.
+  assert (E : sem cx (AtomicGroup (Concat (x :: r))) fu g st = firstn 1 (sem cx (Concat (x :: r)) fu g st))
+    by (destruct st; reflexivity).
+  change (sem_cat cx fu g [AtomicGroup (Concat (x :: r))] st)
+    with (flat_map (fun s : sst => [s]) (sem cx (AtomicGroup (Concat (x :: r))) fu g st)).
+  rewrite flat_map_id, E, sem_concat_eq. reflexivity.
+Qed.
+
+Lemma ngl_wrapA A : ngroups_list (wrapA A) = ngroups_list A.
+Proof. apply (lkeeps_wrapA A). Qed.
+Lemma ngl_atom_list hc : forall l g, ngroups_list (atom_list bs hc g l) = ngroups_list l.
+Proof. induction l as [|x r IH]; intros g; [reflexivity|]. cbn [atom_list]. rewrite !ngl_cons, at_ngroups, IH. reflexivity. Qed.
+
+Lemma seg_concatD lk es : Forall (seg_stmtD lk) es -> seg_stmtD lk (Concat es).
+Proof.
+  intros IH. startD (Concat es). rewrite visit_concat in Hv. rewrite Edel in Hv. cbv zeta in Hv.
+  destruct (atomize_concat bs es g hc Edel) as [Hes Hat]. rewrite Hat. clear Hat.
+  pose proof (cat_bounds bs hc g es) as Hb. unfold cat_pe, cat_sb in Hes, Hb |- *. cbv zeta in Hes, Hb |- *.
+  set (pe := prefix_count bs g es) in *.
+  set (sb := length es - _) in *.
+  set (A := firstn pe es) in *. set (B := firstn (sb - pe) (skipn pe es)) in *. set (C := skipn sb es) in *.
+  assert (HlA : length A = pe) by (unfold A; apply firstn_length_le; lia).
+  assert (HlB : length B = sb - pe) by (unfold B; apply firstn_length_le; rewrite skipn_length; lia).
+  apply bindc_inr in Hv as ([cm ns1] & Hm & Hv). inversion Hv; subst code ns'. clear Hv.
+  rewrite Hes in Hm. rewrite (mid_before pe sb (B ++ C) _ ns A 0 g) in Hm by lia.
+  rewrite (mid_mid pe sb C B) in Hm by lia. cbn [Nat.add] in Hm.
+  assert (Esuf : skipn sb (with_groups g es) = with_groups (g + ngroups_list (A ++ B)) C).
+  { rewrite Hes at 1. rewrite app_assoc. replace sb with (length (A ++ B)) at 1 by (rewrite app_length; lia). apply skipn_with_groups. }
+  rewrite Esuf in *.
+  assert (Edl : delegates (map fst (with_groups (g + ngroups_list (A ++ B)) C))
+                  match with_groups (g + ngroups_list (A ++ B)) C with (_, g') :: _ => g' | [] => g end
+                = delegates C (g + ngroups_list (A ++ B))).
+  { rewrite map_fst_with_groups. destruct C; reflexivity. }
+  rewrite Edl in *. clear Edl Esuf.
+  rewrite Hes in IH. apply Forall_app in IH as [_ IH]. apply Forall_app in IH as [IHB _].
+  rewrite ngroups_concat in Hng. rewrite Hes in Hng. rewrite !ngl_app in Hng.
+  assert (Hokl : okl lk g es) by (repeat split; auto).
+  rewrite Hes in Hokl. apply okl_app in Hokl as [HoA Hokl]. apply okl_app in Hokl as [HoB HoC].
+  apply okdeleg2_app in Hnd as [HnA Hnd]. apply okdeleg2_app in Hnd as [HnB HnC].
+  apply At_app in HAt as [HAA HAt]. apply At_app in HAt as [HAB HAC].
+  pose proof (seg_delegatesD lk A g pc ns HnA HAA ltac:(lia) Hns) as SA.
+  pose proof (seg_listD lk B IHB _ _ _ _ _ Hm HnB HAB HoB Hns ltac:(lia)) as SB.
+  assert (Mb : ns <= ns1) by apply SB.
+  rewrite ngl_app, Nat.add_assoc in *.
+  pose proof (seg_delegatesD lk C _ _ ns1 HnC HAC ltac:(lia) ltac:(lia)) as SC.
+  assert (PB : forall st st', st_ok cs st -> In st' (asem_cat true (g + ngroups_list A) B st) -> st_ok cs st').
+  { intros st st' Hs Hin. rewrite <- asem_cat_eq in Hin.
+    apply (sem_cat_ok (atom_list bs true (g + ngroups_list A) B) fuel (g + ngroups_list A) st st'); auto.
+    apply wfe_atom_list. destruct HoB as [HwB _]. now rewrite wfe_concat in HwB. }
+  assert (PA : forall st st', st_ok cs st -> In st' (blockf g A st) -> st_ok cs st').
+  { intros st st' Hs Hin. unfold blockf in Hin. destruct HoA as [HwA _]. rewrite wfe_concat in HwA.
+    destruct A as [|a0 A0]; [destruct Hin as [<-|[]]; auto|]. apply in_firstn in Hin. eapply sem_cat_ok; eauto. }
+  eapply segP_ext; [|apply (segP_app lk _ _ _ _ _ _ _ _ SA (segP_app lk _ _ _ _ _ _ _ _ SB SC PB) PA)].
+  intros st Hst. cbv beta. rewrite sem_concat_eq, sem_cat_app, sem_cat_wrapA, ngl_wrapA.
+  assert (EA : blockf g A st = match A with [] => [st] | _ :: _ => firstn 1 (sem_cat cx fuel g A st) end) by reflexivity.
+  rewrite <- EA. apply flat_map_ext. intros s.
+  rewrite sem_cat_app, asem_cat_eq, ngl_atom_list. apply flat_map_ext. intros s2. rewrite sem_cat_wrapA. reflexivity.
+Qed.
+
+End D.
 
 End CC.
